@@ -134,6 +134,9 @@ def gen_world(rng, nmin=3, nmax=20, na_rate=0.0, na_cols=(), ordered_prob=0.5, f
     w.cols["C(k, levels=KL)"] = {"kind": "cat", "v": [ks.index(v) + 1 for v in kv], "decl": list(range(len(ks), 0, -1))}
     w.names["C(k, levels=KL)"] = [str(v) for v in ks]
     w.namespace = {"KL": sorted(ks, reverse=True)}
+    # C() of an ordered categorical: the declared order is respected (not the sorted one)
+    w.cols["C(o)"] = {"kind": "cat", "v": list(w.cols["o"]["v"]), "decl": list(w.cols["o"]["decl"])}
+    w.names["C(o)"] = list(w.names["o"])
     # a call that returns plain strings (not a CategoricalBox): levels must still be sorted
     w.cols["I(h)"] = {"kind": "cat", "v": list(w.cols["h"]["v"]), "decl": []}
     w.names["I(h)"] = list(w.names["h"])
@@ -176,7 +179,7 @@ def _fk(a, k=0):
     return a + 2 * k
 
 
-DERIVED = {"k#grp": ["k"], "fk(z, k=w)": ["z", "w"], "fk(np.abs(z), k=I(`b q`))": ["z", "b q"], "`b q`": ["b q"], "C(k)": ["k"], "C(k, levels=KL)": ["k"], "I(h)": ["h"], "S(h)": ["h"], "C(g, Sum)": ["g"], "I(x * 2)": ["x"], "np.abs(x)": ["x"], "I(z + w)": ["z", "w"]}
+DERIVED = {"C(o)": ["o"], "k#grp": ["k"], "fk(z, k=w)": ["z", "w"], "fk(np.abs(z), k=I(`b q`))": ["z", "b q"], "`b q`": ["b q"], "C(k)": ["k"], "C(k, levels=KL)": ["k"], "I(h)": ["h"], "S(h)": ["h"], "C(g, Sum)": ["g"], "I(x * 2)": ["x"], "np.abs(x)": ["x"], "I(z + w)": ["z", "w"]}
 
 
 def _set_na(w, df, c, r):
@@ -206,8 +209,8 @@ def _set_na(w, df, c, r):
             w.cols[dname]["v"][r] = 0 if w.cols[dname]["kind"] == "cat" else NA
 
 
-CAT_COMPS = ["f", "g", "h", "o", "C(k)", "I(h)", "S(h)", "C(g, Sum)", "C(k, levels=KL)"]
-SAME_FACTOR = [{"h", "I(h)", "S(h)"}, {"g", "C(g, Sum)"}, {"C(k)", "C(k, levels=KL)"}]
+CAT_COMPS = ["f", "g", "h", "o", "C(k)", "I(h)", "S(h)", "C(g, Sum)", "C(k, levels=KL)", "C(o)"]
+SAME_FACTOR = [{"h", "I(h)", "S(h)"}, {"g", "C(g, Sum)"}, {"C(k)", "C(k, levels=KL)"}, {"o", "C(o)"}]
 NUM_COMPS = ["x", "z", "I(x * 2)", "np.abs(x)", "I(z + w)", "`b q`", "fk(z, k=w)", "fk(np.abs(z), k=I(`b q`))"]
 Z_DERIVED = ("z", "I(z + w)", "fk(z, k=w)", "fk(np.abs(z), k=I(`b q`))")
 
